@@ -579,3 +579,50 @@ Lemma witness_stable_invariant_falls :
     s_res p' = [(f3_reserve - 1)%Z; (f3_reserve + 1)%Z] /\
     ss_k (s_res p') (s_sf p') < ss_k (s_res p) (s_sf p).
 Proof. eexists. split; [vm_compute; reflexivity|]. split; [reflexivity|]. vm_compute. reflexivity. Qed.
+
+(* ---------- the single-asset join: what the share search guarantees ---------- *)
+Open Scope Z_scope.
+Theorem binary_search_int_post f lo hi target t n x :
+  binary_search_int f lo hi target t n = Ok x ->
+  exists lo' hi' out, x = Z.quot (lo' + hi') 2 /\ f x = Ok out /\ compare_int t target out = Ok 0.
+Proof.
+  unfold binary_search_int. destruct (n <=? 0); [discriminate|].
+  destruct (loop_pos _ _ _) as [s|r] eqn:E; [discriminate|]. intros H; subst r.
+  apply loop_pos_inr in E as ([lo' hi'] & E). unfold bs_int_step in E.
+  destruct (int_check (lo' + hi')) as [s|e] eqn:Ea; [|discriminate].
+  destruct (f (Z.quot s 2)) as [out|e] eqn:Ef; [|discriminate].
+  destruct (compare_int t target out) as [c|e] eqn:Ec; [|discriminate].
+  destruct (c <? 0) eqn:E1; [discriminate|]. destruct (0 <? c) eqn:E2; [discriminate|].
+  apply Z.ltb_ge in E1, E2. assert (c = 0) by lia; subst c.
+  inversion E; subst x. apply int_check_ok in Ea. subst s.
+  exists lo', hi', out. auto.
+Qed.
+
+(* tolerance of the share search: additive 1, RoundDown: a passed comparison means actual <= expected <= actual + 1 *)
+Lemma compare_join_tolerance_zero expected actual :
+  compare_int join_tolerance expected actual = Ok 0 -> actual <= expected <= actual + 1.
+Proof.
+  unfold compare_int, join_tolerance. cbn [tol_dir tol_additive tol_multiplicative].
+  intros H. apply bind_ok in H as (d & Hd & H). unfold dc_sub in Hd. apply d_check_ok in Hd. subst d.
+  destruct (expected <? actual) eqn:E1; [discriminate|]. apply Z.ltb_ge in E1.
+  assert (HP : 0 < P18) by reflexivity.
+  replace (P18 =? 0) with false in H by reflexivity. cbn [andb] in H.
+  destruct (P18 <? Z.abs (expected * P18 - actual * P18)) eqn:E2.
+  - destruct (actual <? expected); discriminate.
+  - apply Z.ltb_ge in E2. nia.
+Qed.
+
+(* The number of shares a single-asset join mints is a probe of the search whose estimate - exit those shares from the
+   enlarged pool at zero exit fee, swap every other token back into the joined token at zero spread factor, all with the
+   pool's own integer arithmetic - is at most the tokens paid in (after the join's spread factor), and within one unit of them:
+   the round trip join -> exit -> swap back never returns more than was paid *)
+Theorem single_join_estimate_le_paid p i a s :
+  binary_search_single_asset_join p i a = Ok s ->
+  exists out, estimate_coin_out p i a s = Ok out /\ out <= a <= out + 1.
+Proof.
+  unfold binary_search_single_asset_join. intros H.
+  apply bind_ok in H as (m & Hm & H). destruct (nthZ (s_res p) i =? 0); [discriminate|].
+  apply bind_ok in H as (c & Hc & H).
+  apply binary_search_int_post in H as (lo' & hi' & out & _ & Hf & Hcmp).
+  exists out. split; [exact Hf|]. apply compare_join_tolerance_zero. exact Hcmp.
+Qed.
